@@ -1,8 +1,8 @@
 package main
 
 import (
-	"fmt"
 	"encoding/json"
+	"fmt"
 	"io"
 	"math/rand"
 	"os"
@@ -11,6 +11,7 @@ import (
 	"sort"
 	"strings"
 	"sync"
+	"sync/atomic"
 	"time"
 
 	"github.com/mattn/anko/env"
@@ -87,9 +88,45 @@ type cop struct {
 
 func (c cop) String() string { return fmt.Sprintf("%s(%s,%d)", c.kind, c.name, c.val) }
 
+// childOf gives the (one) child scope of a shared scope used by the "c..." operations: lookups and updates that start
+// below the shared scope and reach it through the parent link
+var childMu sync.Mutex
+var childOfEnv = map[*env.Env]*env.Env{}
+
+func childOf(e *env.Env) *env.Env {
+	childMu.Lock()
+	defer childMu.Unlock()
+	if c, ok := childOfEnv[e]; ok {
+		return c
+	}
+	if len(childOfEnv) > 4096 {
+		childOfEnv = map[*env.Env]*env.Env{}
+	}
+	c := e.NewEnv()
+	childOfEnv[e] = c
+	return c
+}
+
 // apply runs one operation on e and renders what the caller can observe.
 func (c cop) apply(e *env.Env) string {
 	switch c.kind {
+	case "addr":
+		p, err := e.Addr(c.name)
+		if err != nil {
+			return fmt.Sprint(err)
+		}
+		return fmt.Sprint(p.Elem().Interface())
+	case "cget":
+		v, err := childOf(e).Get(c.name)
+		return fmt.Sprint(v, err)
+	case "cset":
+		return fmt.Sprint(childOf(e).Set(c.name, c.val))
+	case "ctype":
+		t, err := childOf(e).Type("T" + c.name)
+		return fmt.Sprint(t, err)
+	case "caddr":
+		_, err := childOf(e).Addr(c.name)
+		return fmt.Sprint(err)
 	case "define":
 		return fmt.Sprint(e.Define(c.name, c.val))
 	case "set":
@@ -212,8 +249,27 @@ func streamEnvConc(o *Out, r *rand.Rand, n int, thorough bool) {
 		"order (all merges enumerated on fresh environments); plus an unchecked-result stress for the race detector; non-trivial = all; distinct by operation lists"
 	phase := os.Getenv("VERIF_ENVCONC_PHASE")
 	on := func(p string) bool { return phase == "" || phase == p }
+	// a scope whose lock is never released blocks the goroutine that computes the sequential outcomes too: a monitor ends the
+	// process when no scenario has finished for 30 s and names the scenario that was running
+	var beat int64
+	var current atomic.Value
+	current.Store("")
+	go func() {
+		last, since := int64(-1), time.Now()
+		for {
+			time.Sleep(2 * time.Second)
+			if b := atomic.LoadInt64(&beat); b != last {
+				last, since = b, time.Now()
+			} else if time.Since(since) > 30*time.Second {
+				o.Fail(Failure{Oracle: "no-deadlock", Key: "env-deadlock", Input: current.Load().(string),
+					Detail: "no operation on the scope has returned for 30 s (also one at a time): a lock of the scope is never released"})
+				o.Close()
+				os.Exit(0)
+			}
+		}
+	}()
 	names := []string{"a", "b", "p"}
-	kinds := []string{"define", "define", "set", "get", "get", "delete", "copy", "symbols", "delglobal", "defglobal", "deftype", "deftype", "type", "types", "string"}
+	kinds := []string{"define", "define", "set", "get", "get", "delete", "copy", "symbols", "delglobal", "defglobal", "deftype", "deftype", "type", "types", "string", "addr", "cget", "cset", "ctype", "caddr"}
 	reps := 40
 	if thorough {
 		reps = 200
@@ -231,6 +287,8 @@ func streamEnvConc(o *Out, r *rand.Rand, n int, thorough bool) {
 			}
 		}
 		desc := fmt.Sprint(threads)
+		current.Store(desc)
+		atomic.AddInt64(&beat, 1)
 		// all sequential outcomes
 		allowed := map[string]bool{}
 		for _, m := range merges(threads) {
